@@ -8,6 +8,9 @@ Import ListNotations.
 From KDB Require Import Util UtilProofs PropDefs PropFlags PropLink PropLinkBasics PropLinkOps PropLinkTheorems PropSim PropGrow PropSimAct.
 From KDB Require PropAbs PropAbsProofs PropAbsAct PropProofs PropCheck PropGrowMore PropMove.
 
+Module AP := PropAbsProofs.
+Module C := PropAbsAct.
+
 Section GrowAct.
   Variable fn : nat -> list Z -> option Z.
   Variable rtl : bool.
@@ -105,5 +108,223 @@ Section GrowAct.
     destruct (PropMove.grow3_coherent fn rtl fuel ops1 world0 PropGrow.SC_world0 (PropGrow.COH_world0 fn) (PropMove.NOEMIT_world0) Hok1) as [HSC HC].
     destruct (act_coherent fuel ops2 _ (SC_SCA _ HSC) HC Hok2) as [HSC2 HC2].
     unfold w, run in *. rewrite fold_left_app in *. eapply coherent_bound_equals_expression_act; eauto.
+  Qed.
+
+  (* ------------------------------------------------------------------------------------------------------------------------------ *)
+  (* growth in ANY order: properties, observers that write, fresh immediate bindings - also once such observers exist *)
+  Notation F1 := (PropSim.F1 fn).
+  Notation F2 := (PropSim.F2 fn).
+  Notation F3 := (PropSim.F3 fn).
+  Notation abs_tree := PropSim.abs_tree.
+  Notation Rel := PropSim.Rel.
+  Notation ORD := PropSim.ORD.
+  Notation imm := PropSim.imm.
+  Notation imm_of := PropSim.imm_of.
+  Notation SIMPLE := PropSim.SIMPLE.
+  Notation ORD' := PropSimAct.ORD'.
+  Notation GR := PropGrow.GR.
+
+  Lemma GR_SCA w w1 : GR w w1 -> pinv w1 -> SCA w -> SCA w1.
+  Proof.
+    intros (G1 & G2 & G3 & G4 & G5 & G6) Hinv1 (Hinv & Hna & Hsi). split; [exact Hinv1|]. split.
+    - intros t pos ser label a Hs. destruct (Hna t pos ser label a (G5 _ _ _ _ _ Hs)) as (tgt & p & Ea & Ho). exists tgt, p. split; [exact Ea|exact (G6 _ _ _ Ho)].
+    - intros q x Hx. rewrite G1 in Hx. eauto.
+  Qed.
+
+  Lemma grow_new_act w p v :
+    SCA w -> COH w -> lookup (w_props w) p = None ->
+    let w' := set_props w (bind_key (w_props w) p (prop_new v)) in SCA w' /\ COH w'.
+  Proof.
+    intros (Hinv & Hna & Hsi) HC Hp w'.
+    assert (Pn : pview w p = None) by (unfold pview; rewrite Hp; reflexivity).
+    assert (IO : forall q, imm_of w' q = imm_of w q).
+    { intros q. unfold PropSim.imm_of, w'; cbn [set_props w_props]. rewrite lookup_bind. destruct (Nat.eqb_spec q p) as [->|]; [rewrite Hp; reflexivity|reflexivity]. }
+    split.
+    - split; [apply pinv_new_prop; assumption|]. split.
+      + intros t pos ser label a Hs. destruct (Hna t pos ser label a Hs) as (tgt & p0 & Ea & (vv & Ev & Es)). exists tgt, p0. split; [exact Ea|].
+        exists vv. split; [|exact Es]. unfold w'. rewrite pview_bind. destruct (Nat.eqb_spec p0 p) as [->|]; [congruence|exact Ev].
+      + intros q x Hx. rewrite IO in Hx. eauto.
+    - destruct HC as (s & (R1 & R2 & R3) & HInv).
+      assert (OR : forall p0 x, In x (ORD w p0) -> In x (ORD w' p0)).
+      { intros p0 [q l] Hi. apply PropGrow.in_ORD in Hi. destruct Hi as (t & pos & ser & b & (vv & Ev & Es) & Hs & Hi). apply PropGrow.in_ORD.
+        exists t, pos, ser, b. split; [|split; [exact Hs|exact Hi]]. exists vv. split; [|exact Es].
+        unfold w'. rewrite pview_bind. destruct (Nat.eqb_spec p0 p) as [->|]; [congruence|exact Ev]. }
+      exists {| A.env := A.set_env (A.env s) p v; A.tr := A.tr s; A.oof := false |}. split.
+      + split; [|split; [intros q; rewrite IO; apply R2|reflexivity]].
+        intros p0 pr0 Hp0. unfold w' in Hp0; cbn [set_props w_props] in Hp0. rewrite lookup_bind in Hp0. cbn [A.env]. unfold A.set_env.
+        destruct (Nat.eqb_spec p0 p) as [->|]; [inversion Hp0; reflexivity|auto].
+      + apply (PropGrow.Inv_order_incl fn (ORD w)); [exact OR|].
+        assert (Eo : ORD w p = []) by (unfold PropSim.ORD; rewrite Pn; reflexivity).
+        pose proof (AP.Inv_env_change F1 F2 F3 (ORD w) s [] p v) as IE. rewrite Eo in IE. cbn [app] in IE. apply IE.
+        * intros q t Ht. destruct (HInv q t Ht) as (A1 & A2 & A3 & A4). repeat split; auto.
+        * intros t Ht. rewrite R2 in Ht. unfold PropSim.imm_of in Ht. rewrite Hp in Ht. discriminate Ht.
+  Qed.
+
+  Lemma assign_fresh_act fuel w p pr b xb T w' :
+    SCA w -> COH w -> lookup (w_props w) p = Some pr -> pr_updater pr = None ->
+    get_bind w b = Some xb -> b_evp xb = 0 -> b_target xb = None -> (forall n, lookup (w_held w) n <> Some b) ->
+    abs_tree (b_root xb) = Some T ->
+    (forall s, Rel w s -> A.clean T /\ A.consis F1 F2 F3 (A.env s) [] p T /\ (forall p0 lid, In (p0, lid) (A.leaves T) -> values w p0 = Some (A.env s p0))) ->
+    assign_binding fn rtl fuel w p b = (w', None) -> SCA w' /\ COH w'.
+  Proof.
+    intros (Hinv & Hna & Hsi) (s & HRel & HInv) Hp Hu Hb Hevp Htg Hheld HT Htree H.
+    destruct (Htree s HRel) as (HC & HN & HV). pose proof HRel as (R1 & R2 & R3).
+    unfold assign_binding in H. rewrite Hp, Hu in H. cbn [ok] in H. rewrite Hp, Hb in H.
+    set (w2 := set_props w (bind_key (w_props w) p (prop_set_updater pr (Some b)))) in *.
+    set (xb3 := bind_with_target xb (Some p)) in *.
+    set (w3 := put_bind w2 b xb3) in *.
+    destruct (get_bind_lt _ _ _ Hb) as [Hlt Hal].
+    assert (Bvb : bview w b = Some (leaves (b_root xb), None)) by (unfold bview; rewrite Hb, Htg; reflexivity).
+    assert (HNT : NOTARGET p w).
+    { intros b' ls E. destruct (pi_tgt _ _ _ _ _ _ _ Hinv _ _ _ E) as (vv & Ev & Eu). unfold pview in Ev. rewrite Hp in Ev. assert (vv = psigs_of pr) by congruence. subst vv. cbn in Eu. congruence. }
+    assert (Hinv3 : pinv w3).
+    { apply (install_updater w p pr b xb (leaves (b_root xb))); auto.
+      eapply pinvg_mono; [| | | | | |exact Hinv]; cbv beta; try (intros x Hx; exact Hx); try (intros x Hx; exact (False_ind _ Hx)). }
+    assert (V3 : forall q, values w3 q = values w q).
+    { intros q. unfold values. change (w_props w3) with (w_props w2). unfold w2; cbn [set_props w_props]. rewrite lookup_bind.
+      destruct (Nat.eqb_spec q p) as [->|]; [rewrite Hp; reflexivity|reflexivity]. }
+    destruct (eval fn rtl (values w3) (b_root xb)) as [[t r] l] eqn:He. destruct r as [v|ex]; [|discriminate H].
+    assert (HV3 : forall p0 lid, In (p0, lid) (A.leaves T) -> values w3 p0 = Some (A.env s p0)) by (intros; rewrite V3; eauto).
+    destruct (sim_eval fn rtl (values w3) (A.env s) _ _ _ _ _ HT HV3 He) as [Et Ev]. rewrite (AP.eval_clean F1 F2 F3 (A.env s) T HC) in Et, Ev. cbn [fst snd] in Et, Ev.
+    assert (Hden : v = A.den F1 F2 F3 (A.env s) T) by (rewrite Ev; apply (AP.val_den F1 F2 F3 (A.env s) [] p T HC HN); intros p0 lid _ []).
+    assert (Hb3 : get_bind w3 b = Some xb3).
+    { unfold get_bind, w3, put_bind; cbn [set_binds w_binds]. change (w_binds w2) with (w_binds w). rewrite nth_upd_same by exact Hlt.
+      unfold xb3; cbn [bind_with_target b_alive]. rewrite Hal. reflexivity. }
+    pose proof (leaves_eval fn rtl (values w3) (b_root xb)) as Hl. rewrite He in Hl. cbn [fst] in Hl.
+    set (w4 := log_fns l (put_bind w3 b (bind_with_root xb3 t))) in *.
+    assert (V34 : views_eq w3 w4).
+    { eapply views_eq_trans; [apply (views_put_root w3 b xb3 t Hb3); exact Hl|apply views_log_fns]. }
+    assert (Hinv4 : pinv w4) by (eapply pinv_views; eauto).
+    (* the views of w4 in terms of w *)
+    assert (G4 : forall b', get_bind w4 b' = if Nat.eqb b b' then Some (bind_with_root xb3 t) else get_bind w b').
+    { intros b'. unfold w4. assert (E : forall w0, get_bind (log_fns l w0) b' = get_bind w0 b') by (clear; induction l as [|g r IH]; intros w0; cbn [log_fns]; [reflexivity|rewrite IH; reflexivity]).
+      rewrite E. rewrite (get_bind_put_root _ _ _ _ _ Hb3). destruct (Nat.eqb_spec b b') as [<-|Hne]; [reflexivity|].
+      unfold get_bind, w3, put_bind; cbn [set_binds w_binds]. change (w_binds w2) with (w_binds w). rewrite nth_upd_other by exact Hne. reflexivity. }
+    assert (P4 : w_props w4 = w_props w2) by (unfold w4; rewrite PropProofs.log_fns_props; reflexivity).
+    assert (L4 : forall q, lookup (w_props w4) q = if Nat.eqb q p then Some (prop_set_updater pr (Some b)) else lookup (w_props w) q).
+    { intros q. rewrite P4. unfold w2; cbn [set_props w_props]. apply lookup_bind. }
+    assert (T4 : forall t0, tview w4 t0 = tview w t0).
+    { intros t0. destruct V34 as (_ & T34 & _). rewrite T34. reflexivity. }
+    assert (I4 : forall b', imm w4 b' = if Nat.eqb b b' then Some p else imm w b').
+    { intros b'. unfold imm. rewrite G4. destruct (Nat.eqb_spec b b') as [<-|]; [|reflexivity]. cbn [bind_with_root xb3 bind_with_target b_evp b_target]. rewrite Hevp. reflexivity. }
+    assert (IO4 : forall q, imm_of w4 q = if Nat.eqb q p then Some (bind_with_root xb3 t) else imm_of w q).
+    { intros q. unfold imm_of. rewrite L4. destruct (Nat.eqb_spec q p) as [->|Hne].
+      - cbn [prop_set_updater pr_updater]. rewrite G4, Nat.eqb_refl. cbn [bind_with_root xb3 bind_with_target b_evp]. rewrite Hevp. reflexivity.
+      - destruct (lookup (w_props w) q) as [pr'|] eqn:Hq; [|reflexivity]. destruct (pr_updater pr') as [b'|] eqn:Hu'; [|reflexivity]. rewrite G4.
+        destruct (Nat.eqb_spec b b') as [<-|]; [|reflexivity]. exfalso.
+        assert (Pv' : pview w q = Some (psigs_of pr')) by (unfold pview; rewrite Hq; reflexivity).
+        destruct (pi_upd _ _ _ _ _ _ _ Hinv _ _ _ Pv' Hu' (fun z => z)) as (ls & Eb). congruence. }
+    assert (O4 : forall p0 x, In x (ORD w p0) -> In x (ORD w4 p0)).
+    { intros p0 [q l0] Hi. apply PropGrow.in_ORD in Hi. destruct Hi as (t0 & pos & ser & b' & (vv & Evv & Es) & Hs & Hi). apply PropGrow.in_ORD. exists t0, pos, ser, b'. split; [|split].
+      - unfold owns, pview. rewrite L4. unfold pview in Evv. destruct (Nat.eqb_spec p0 p) as [->|]; [|exists vv; auto].
+        rewrite Hp in Evv. assert (vv = psigs_of pr) by congruence. subst vv. eexists. split; [reflexivity|]. rewrite psig_set_updater. exact Es.
+      - unfold slot_at. rewrite T4. exact Hs.
+      - rewrite I4. destruct (Nat.eqb_spec b b') as [<-|]; [|exact Hi]. unfold imm in Hi. rewrite Hb, Hevp, Htg in Hi. discriminate Hi. }
+    set (s4 := {| A.env := A.env s; A.tr := A.set_tr (A.tr s) p T; A.oof := false |}).
+    assert (Rel4 : Rel w4 s4).
+    { split; [|split; [|reflexivity]].
+      - intros q prq Hq. rewrite L4 in Hq. cbn [s4 A.env]. destruct (Nat.eqb_spec q p) as [->|]; [|auto].
+        inversion Hq; subst prq. cbn [prop_set_updater pr_value]. exact (R1 _ _ Hp).
+      - intros q. cbn [s4 A.tr]. unfold A.set_tr. rewrite IO4. destruct (Nat.eqb_spec q p) as [->|]; [|apply R2].
+        cbn [bind_with_root b_root]. symmetry. exact Et. }
+    assert (SC4 : SCA w4).
+    { split; [exact Hinv4|]. split.
+      - intros t0 pos ser label act Hs. unfold slot_at in Hs. rewrite T4 in Hs. destruct (Hna t0 pos ser label act Hs) as (tgt & p0 & Ea & (vv & Evv & Es)).
+        exists tgt, p0. split; [exact Ea|]. unfold owns, pview. rewrite L4. unfold pview in Evv. destruct (Nat.eqb_spec p0 p) as [->|]; [|exists vv; auto].
+        rewrite Hp in Evv. assert (vv = psigs_of pr) by congruence. subst vv. eexists. split; [reflexivity|]. rewrite psig_set_updater. exact Es.
+      - intros q x Hx. rewrite IO4 in Hx. destruct (Nat.eqb_spec q p) as [->|]; [|eauto]. inversion Hx; subst x. cbn [bind_with_root b_root]. congruence. }
+    destruct (sim_set' fn rtl (ORD' w4) fuel w4 p v w' s4 SC4 (fun _ => eq_refl) Rel4 H) as (SC' & FR' & Rel').
+    split; [exact SC'|].
+    exists (C.set' F1 F2 F3 (ORD' w4) fuel s4 p v). split; [exact Rel'|].
+    apply (PropGrow.Inv_order_incl fn (C.lorder (ORD' w4))); [intros p0 x Hi; rewrite (FR_ORD _ _ p0 FR'); rewrite lorder_ORD' in Hi; exact Hi|].
+    (* everything but the value of p itself is in order *)
+    assert (Pre : AP.PreInv F1 F2 F3 (C.lorder (ORD' w4)) s4 [] p).
+    { intros q t0 Ht0. cbn [s4 A.tr A.env] in *. unfold A.set_tr in Ht0. destruct (Nat.eqb_spec q p) as [->|Hne].
+      - inversion Ht0; subst t0. split; [exact HC|]. split; [exact HN|]. split; [intros Hx; contradiction|].
+        intros p0 lid Hi. destruct (abs_leaf_in _ _ _ _ HT Hi) as (lf & Hlf & Htg0 & Hid).
+        assert (Hl4 : has_leaf w4 b lf).
+        { exists (leaves t), (Some p). split; [unfold bview; rewrite G4, Nat.eqb_refl; reflexivity|rewrite Hl; exact Hlf]. }
+        destruct (pi_leafc _ _ _ _ _ _ _ Hinv4 _ _ _ Hl4 Htg0 (fun z => z)) as [Ho Hv]. rewrite lorder_ORD'. apply PropGrow.in_ORD.
+        exists (h_table (lf_hc lf)), (h_pos (lf_hc lf)), (h_serial (lf_hc lf)), b. split; [exact Ho|]. split; [rewrite <- Hid; exact Hv|]. rewrite I4, Nat.eqb_refl. reflexivity.
+      - destruct (HInv q t0 Ht0) as (A1 & A2 & A3 & A4). repeat split; auto. intros p0 lid Hi. rewrite lorder_ORD'. apply O4. apply A4. exact Hi. }
+    assert (Hv : forall t0, A.tr s4 p = Some t0 -> A.nopend [] p t0 -> v = A.den F1 F2 F3 (A.env s4) t0).
+    { intros t0 Ht0 _. cbn [s4 A.tr A.env] in *. unfold A.set_tr in Ht0. rewrite Nat.eqb_refl in Ht0. inversion Ht0; subst t0. exact Hden. }
+    unfold C.set' in *. destruct (Z.eqb v (A.env s4 p)) eqn:Ez.
+    - (* the new expression gives the value the property has already *)
+      apply Z.eqb_eq in Ez. intros q t0 Ht0. destruct (Pre q t0 Ht0) as (A1 & A2 & A3 & A4). repeat split; auto.
+      intros Hn. destruct (Nat.eq_dec q p) as [->|Hne]; [|auto]. rewrite <- Ez. apply Hv; assumption.
+    - pose proof (AP.Inv_env_change F1 F2 F3 (C.lorder (ORD' w4)) s4 [] p v Pre Hv) as IE.
+      apply (proj2 (C.notify'_ok F1 F2 F3 (ORD' w4) fuel)); [exact IE|]. destruct Rel' as (_ & _ & Q3). exact Q3.
+  Qed.
+
+  Lemma grow_bind_act fuel w p e w' :
+    SCA w -> COH w -> lookup (w_props w) p = None ->
+    step1 fn rtl fuel w (PBind p e MImmediate) = (w', None) -> SCA w' /\ COH w'.
+  Proof.
+    intros HSC HC Hp H. pose proof HSC as (Hinv & Hna & Hsi). cbn [step1] in H.
+    destruct (make_binding fn rtl w e MImmediate) as [[w1 b]|x] eqn:Hm; [|discriminate H].
+    destruct (PropGrow.make_binding_grow fn rtl _ _ _ _ Hinv Hm) as (G & Eb & xb & Hxb & Hevp & Htg & Htree).
+    destruct (make_binding_pinv _ _ _ _ _ _ _ Hinv Hm) as (Hinv1 & _ & Hheld).
+    assert (Vp : values w1 p = None) by (destruct G as (_ & _ & G3 & _); rewrite G3; unfold values; rewrite Hp; reflexivity).
+    assert (Hp1 : lookup (w_props w1) p = None) by (unfold values in Vp; destruct (lookup (w_props w1) p); [discriminate Vp|reflexivity]).
+    rewrite Hp1 in H.
+    pose proof (GR_SCA _ _ G Hinv1 HSC) as SC1. pose proof (PropGrow.GR_COH fn _ _ G HC) as COH1.
+    destruct (grow_new_act w1 p 0%Z SC1 COH1 Hp1) as (SCn & COHn).
+    set (w1n := set_props w1 (bind_key (w_props w1) p (prop_new 0%Z))) in *.
+    set (env0 := fun p0 => match values w p0 with Some v => v | None => 0%Z end).
+    destruct (Htree env0 p) as (T & HT & _); [intros p0 v0 E; unfold env0; rewrite E; reflexivity|].
+    apply (assign_fresh_act fuel w1n p (prop_new 0%Z) b xb T w' SCn COHn); auto.
+    - unfold w1n; cbn [set_props w_props]. apply lookup_bind_same.
+    - intros s (R1 & R2 & R3).
+      destruct (Htree (A.env s) p) as (T' & HT' & C' & N' & V').
+      { intros p0 v0 E. destruct G as (_ & _ & G3 & _). rewrite <- G3 in E. apply PropGrow.values_lookup in E. destruct E as (pr0 & Hp0 & Ev).
+        assert (Hne : p0 <> p) by (intros ->; congruence).
+        rewrite <- Ev. apply R1. unfold w1n; cbn [set_props w_props]. rewrite lookup_bind_other by exact Hne. exact Hp0. }
+      assert (T' = T) by congruence. subst T'. split; [exact C'|]. split; [exact N'|].
+      intros p0 lid Hi. specialize (V' p0 lid Hi). assert (Hne : p0 <> p) by (intros ->; congruence).
+      unfold values, w1n; cbn [set_props w_props]. rewrite lookup_bind_other by exact Hne. exact V'.
+  Qed.
+
+  Definition grow_act_op (w : world) (o : op) : Prop :=
+    match o with
+    | PNew _ _ => True
+    | PBind p _ MImmediate => lookup (w_props w) p = None
+    | _ => act_op o
+    end.
+
+  Theorem grow_act_step fuel w o w' : SCA w -> COH w -> grow_act_op w o -> step1 fn rtl fuel w o = (w', None) -> SCA w' /\ COH w'.
+  Proof.
+    intros HSC HC Ho H. destruct o; cbn [grow_act_op] in Ho; try (exact (act_step fuel w _ w' HSC HC Ho H)).
+    - (* PNew *) cbn [step1] in H. destruct (lookup (w_props w) p) eqn:Hp; [discriminate H|]. inversion H; subst w'. apply grow_new_act; assumption.
+    - (* PBind *) destruct m; [|destruct Ho]. apply (grow_bind_act fuel w p e w'); assumption.
+  Qed.
+
+  Fixpoint grow_act_run_ok (fuel : nat) (w : world) (ops : list op) : Prop :=
+    match ops with
+    | [] => True
+    | o :: r => grow_act_op w o /\ snd (step1 fn rtl fuel w o) = None /\ grow_act_run_ok fuel (step fn rtl fuel w o) r
+    end.
+
+  Theorem grow_act_coherent fuel : forall ops w, SCA w -> COH w -> grow_act_run_ok fuel w ops ->
+    SCA (fold_left (step fn rtl fuel) ops w) /\ COH (fold_left (step fn rtl fuel) ops w).
+  Proof.
+    induction ops as [|o r IH]; intros w HSC HC Hok; cbn [fold_left]; [auto|]. destruct Hok as (Ho & Hn & Hr).
+    unfold step in *. destruct (step1 fn rtl fuel w o) as [w1 e] eqn:E. cbn [snd] in Hn. subst e.
+    destruct (grow_act_step fuel w o w1 HSC HC Ho E) as [SC1 COH1].
+    apply IH; [apply SCA_log; exact SC1|exact COH1|exact Hr].
+  Qed.
+
+  (* C02 for networks that grow in ANY order - new properties, observers (plain, or writing another property when told of a change),
+     fresh immediately bound properties over any existing ones, assignments by every path: in every world reached, every immediately
+     bound property equals its expression recomputed from scratch *)
+  Theorem grow_act_reachable_consistent fuel ops q x pr z :
+    grow_act_run_ok fuel world0 ops ->
+    let w := run fn rtl fuel ops in
+    PropSim.imm_of w q = Some x -> lookup (w_props w) q = Some pr ->
+    PropCheck.den_node fn (values w) (b_root x) = Some z -> pr_value pr = z.
+  Proof.
+    intros Hok w Hi Hq Hd.
+    destruct (grow_act_coherent fuel ops world0 (SC_SCA _ PropGrow.SC_world0) (PropGrow.COH_world0 fn) Hok) as [HSC HC].
+    eapply coherent_bound_equals_expression_act; eauto.
   Qed.
 End GrowAct.
